@@ -721,7 +721,9 @@ class ValueNode(SyntaxNodeBase):
 
     @is_negatable_identifier.setter
     def is_negatable_identifier(self, val):
-        if val == True:
+        # marking a node again must not re-read the original token: that would undo
+        # a value set since, and throw away the formatting learned from the token.
+        if val == True and not self._is_neg_id:
             self._convert_to_int()
             if self.value is not None:
                 self._is_neg = self.value < 0
